@@ -193,17 +193,26 @@ def apply_ops(cx, e, B, rng, watch):
                 sub.signextend(sub.size + 5).simplify()
                 names.append("extend")
             elif k == 11 and sub.size >= 4:
-                # a register written piecewise in a map, read at full width, then written piecewise again:
-                # the value read must not follow the later write
+                # a register written piecewise in a map (pieces of the watched expression and constants, at any offsets),
+                # read at full width, used, then written piecewise again: the value read must keep its meaning
                 m = cx.mapper()
-                r0 = E.reg("dst%d" % rng.randrange(3), sub.size)
-                cut = rng.randrange(1, sub.size - 1)
-                m[r0[0:cut]] = sub[0:cut]
+                n = sub.size
+                r0 = E.reg("dst%d" % rng.randrange(3), n)
+                cuts = sorted({0, n} | {rng.randrange(1, n) for _ in range(rng.randrange(1, 4))})
+                pieces = list(zip(cuts, cuts[1:]))
+                for lo, hi in rng.sample(pieces, rng.randrange(1, len(pieces) + 1)):
+                    m[r0[lo:hi]] = sub[lo:hi] if rng.random() < 0.5 else E.cst(rng.getrandbits(hi - lo), hi - lo)
                 got = m[r0] if rng.random() < 0.5 else m(r0)
                 watch.extend(snapshot(reachable(got)))
-                m[r0[0:cut]] = E.cst(rng.getrandbits(cut), cut)
-                if rng.random() < 0.5:
-                    m[r0[cut:sub.size]] = E.cst(0, sub.size - cut)
+                use = rng.randrange(4)
+                if use == 0:
+                    (got + 1).simplify()
+                elif use == 1:
+                    got.simplify(**rng.choice(OPTS))
+                elif use == 2:
+                    m[E.reg("other", n)] = got
+                lo, hi = rng.choice(pieces)
+                m[r0[lo:hi]] = E.cst(rng.getrandbits(hi - lo), hi - lo)
                 names.append("map-partial-write")
             else:
                 x = (sub == sub)
@@ -306,8 +315,10 @@ def pickle_part(run, quick):
             else:
                 obj = MemoryMap()
                 obj.write(0x1000, b"abcdefgh")
-                obj.write(0x1004, e)
-                obj.write(E.ptr(E.reg("ptr", 32), disp=4), e)
+                obj.write(0x1004, e, endian=rng.choice([1, -1]))
+                obj.write(E.ptr(E.reg("ptr", 32), disp=4), e, endian=rng.choice([1, -1]))
+                if rng.random() < 0.5 and e.size % 8 == 0 and e.size >= 16:
+                    obj.write(E.ptr(E.reg("ptr", 32), disp=4 + max(1, e.size // 16)), E.cst(0x5A, 8))
             blob = pickle.dumps(obj)
             back = pickle.loads(blob)
         except Exception as x:
@@ -338,14 +349,26 @@ def pickle_part(run, quick):
                     if X.dump(back[loc]) != X.dump(obj[loc]):
                         bad = ("fingerprint", "restored mapper holds a different expression for %s" % loc)
         else:
-            for a in (0x1000, 0x1002, 0x1004):
+            # a restored map and a copy of the map read like the map itself, at every offset and length
+            nb = max(1, e.size // 8)
+            try:
+                cp = obj.copy()
+            except Exception as x:
+                cp = None
+                bad = ("copy-raised", "MemoryMap.copy raised %r" % (x,))
+            P = E.reg("ptr", 32)
+            addrs = [(0x1000, 4), (0x1002, 4), (0x1004, 4), (0x1004, nb), (0x1005, max(1, nb - 1)), (0x1004 + nb - 1, 2)]
+            addrs += [(E.ptr(P, disp=4 + o), l) for o in range(0, nb + 1) for l in (1, 2, nb) if l <= nb + 2]
+            for a, l in addrs:
                 def rd(mm):
                     try:
-                        return [x if isinstance(x, bytes) else X.dump(x) for x in mm.read(a, 4)]
+                        return [x if isinstance(x, bytes) else X.dump(x) for x in mm.read(a, l)]
                     except Exception as x:
                         return ("raised", type(x).__name__)
-                if rd(obj) != rd(back):
-                    bad = ("memory-read", "restored memory reads differently at %#x" % a)
+                if bad is None and rd(obj) != rd(back):
+                    bad = ("memory-read", "restored memory reads differently at %s (%d bytes)" % (a, l))
+                if bad is None and cp is not None and rd(obj) != rd(cp):
+                    bad = ("memory-copy-read", "a copy of the memory map reads differently at %s (%d bytes): %s vs %s" % (a, l, str(rd(cp))[:90], str(rd(obj))[:90]))
         if bad:
             run.violation("pickle|%s|%s" % (kind, bad[0]), bad[1], rep)
 
